@@ -95,6 +95,7 @@ def step (a : List String) : String :=
       s!"{hexs r.scheme},{if r.special then 1 else 0},{hexs r.username},{hexs r.password},{o r.host},{p r.port},{hexs r.path}," ++
       s!"{o r.query},{o r.hash},{if r.opq then 1 else 0},0 {dumpAgg (Model.Agg.layout (Model.UrlRec.toL r))},0,{ty}"
   | "spec.canon" :: comp :: value :: proto :: hints => cmdSpecCanon comp value proto hints
+  | "pat.canon" :: comp :: value :: proto :: args => cmdPatCanon comp value proto args
   | _ => "bad-op"
 
 partial def loop (h : IO.FS.Stream) (out : IO.FS.Stream) : IO Unit := do
